@@ -168,21 +168,21 @@ def jobs(pid, tier, seed):
                 js += J(pid, c, 2, 200000)
             js += J(pid, "asan", 4, 50000)
     elif pid in ("C02", "C11"):
-        js += J(pid, "std-rel", 6, 4000 if q else 300000)
-        js += J(pid, "std-dbg", 6, 3000 if q else 100000)
+        js += J(pid, "std-rel", 6, 4000 if q else 1000000)
+        js += J(pid, "std-dbg", 6, 3000 if q else 300000)
         js += J(pid, "portable-rel", 2, 2000 if q else 100000)
         js += J(pid, "portable-dbg", 2, 1000 if q else 30000)
         if not q:
             js += J(pid, "asan", 2, 20000)
             js += J(pid, "miri", 4, 6, timeout=3600)
     elif pid == "C03":
-        n = 600 if q else 12000
+        n = 600 if q else 80000
         for c in ["std-rel", "portable-rel"] + NOSTD + ([] if q else ["std-dbg", "portable-dbg"]):
             js += J(pid, c, 4, n)
     elif pid in ("C04", "C05", "C06", "C07"):
         big = pid in ("C04", "C05")
-        js += J(pid, "std-rel", 8, (3000 if big else 1500) if q else (60000 if big else 25000))
-        js += J(pid, "std-dbg", 4, (1000 if big else 500) if q else (15000 if big else 6000))
+        js += J(pid, "std-rel", 8, (3000 if big else 1500) if q else (250000 if big else 60000))
+        js += J(pid, "std-dbg", 4, (1000 if big else 500) if q else (60000 if big else 15000))
         if pid in ("C04", "C06"):
             js += J(pid, "portable-rel", 2, 1000 if q else 15000)
             if not q:
@@ -194,42 +194,42 @@ def jobs(pid, tier, seed):
             js += J(pid, "asan", 2, 4000)
             js += J(pid, "miri", 4, 6, timeout=3600)
     elif pid == "C08":
-        js += J(pid, "std-rel", 8, 1500 if q else 30000)
-        js += J(pid, "std-dbg", 4, 800 if q else 10000)
-        js += J(pid, "portable-rel", 2, 800 if q else 10000)
+        js += J(pid, "std-rel", 8, 1500 if q else 150000)
+        js += J(pid, "std-dbg", 4, 800 if q else 40000)
+        js += J(pid, "portable-rel", 2, 800 if q else 40000)
         if not q:
             js += J(pid, "asan", 2, 3000)
             js += J(pid, "miri", 4, 3, timeout=3600)
     elif pid in ("C09", "C10"):
-        js += J(pid, "std-rel", 6, 12000 if q else 1500000)
+        js += J(pid, "std-rel", 6, 12000 if q else 5000000)
         js += J(pid, "std-dbg", 3, 6000 if q else 300000)
-        js += J(pid, "nounroll-rel", 4, 12000 if q else 1500000)
+        js += J(pid, "nounroll-rel", 4, 12000 if q else 5000000)
         if not q:
             js += J(pid, "nounroll-dbg", 3, 300000)
             js += J(pid, "miri", 2, 6, timeout=3600)
     elif pid in ("C12", "C13"):
-        n = 1000 if q else 12000
+        n = 1000 if q else 40000
         js += J(pid, "std-rel", 5, n)
         js += J(pid, "std-dbg", 5, n // 2)
         js += J(pid, "portable-rel", 1, n)
         js += J(pid, "portable-dbg", 1, n // 2)
         if not q:
-            js += J(pid, "std-rel", 10, n)  # more operand seeds
+            js += J(pid, "std-rel", 20, n)  # more operand seeds
             js += J(pid, "miri", 1, 8, timeout=3600)
     elif pid in ("C14", "C15"):
-        js += J(pid, "std-rel", 6, 10000 if q else 400000)
-        js += J(pid, "std-dbg", 6, 5000 if q else 100000)
+        js += J(pid, "std-rel", 6, 10000 if q else 2000000)
+        js += J(pid, "std-dbg", 6, 5000 if q else 500000)
         js += J(pid, "portable-rel", 2, 4000 if q else 100000)
         js += J(pid, "portable-dbg", 2, 2000 if q else 30000)
         if not q:
             for c in NOSTD:
                 js += J(pid, c, 1, 100000)
     elif pid == "C16":
-        js += J(pid, "std-rel", 10, 12000 if q else 300000)
+        js += J(pid, "std-rel", 10, 12000 if q else 600000)
         js += J(pid, "portable-rel", 2, 6000 if q else 100000)
         js += J(pid, "std-dbg", 2, 4000 if q else 50000)
         js += J(pid, "asan", 2, 4000 if q else 100000)
-        js += J(pid, "miri", 2 if q else 8, 10 if q else 24, timeout=3600)
+        js += J(pid, "miri", 2 if q else 8, 24 if q else 80, timeout=3600)
         if not q:
             js += J(pid, "valgrind", 4, 3000, timeout=3600)
             for c in NOSTD:
@@ -245,10 +245,10 @@ def jobs(pid, tier, seed):
         js += J(pid, "tsan", 16 if q else 600, 40, timeout=900)
         mj = J(pid, "miri", 1 if q else 4, 1, timeout=3600, part="threads")
         for k, j in enumerate(mj):
-            j["env"] = {"MIRIFLAGS": "-Zmiri-many-seeds=%d..%d" % (64 * k, 64 * k + (12 if q else 64))}
+            j["env"] = {"MIRIFLAGS": "-Zmiri-many-seeds=%d..%d" % (64 * k, 64 * k + (12 if q else 32))}
         js += mj
     elif pid == "C19":
-        n = 2000 if q else 40000
+        n = 2000 if q else 200000
         js += J(pid, "std-dbg", 6, n)
         js += J(pid, "std-rel", 6, n)
         if not q:
@@ -346,7 +346,7 @@ def c20(drv, pid, tier, seed):
                  lattice_exhaustive=True, evaluations_add=len(pts), distinct_add=max(nondefault, 0),
                  samples_add=["cargo check -p %s --no-default-features --features '%s'" % pts[len(pts) // 2], "cargo check -p %s --no-default-features --features '%s'" % pts[0]])
     q = tier == "quick"
-    n = 400 if q else 8000
+    n = 400 if q else 30000
     js = []
     for cfg in ["std-rel", "std-dbg", "portable-rel", "nounroll-rel", "nostd-sse2", "nostd-avx2"] + ([] if q else ["portable-dbg", "nostd-ssse3", "nostd-sse41", "nostd-avx", "nounroll-dbg"]):
         js += J(pid, cfg, 2, n)
